@@ -45,6 +45,9 @@ var c20Kinds = []struct {
 	{"join_window", "SELECT m.ver AS ver, count(*) AS c FROM stream JOIN meta m ON a = m.k GROUP BY m.ver, CountingWindow(2)", true, true},
 	{"tumbling", "SELECT p, count(*) AS c, collect(id) AS ids FROM stream GROUP BY p, TumblingWindow('1s') WITH (TIMESTAMP='ts', TIMEUNIT='ms')", true, false},
 	{"counting_plain", "SELECT p, count(*) AS c, sum(a) AS sa, collect(id) AS ids FROM stream GROUP BY p, CountingWindow(3)", true, false},
+	// WithSchema: 'a' is missing in a fifth of the rows and has a default, 'zz' is never present
+	{"schema_default", "SELECT id, a, zz FROM stream", false, false},
+	{"unnest_objects", "SELECT id, unnest(l) AS e FROM stream", false, false},
 }
 
 func genC20Row(rng *simrt.Rand, i int) Row {
@@ -52,6 +55,9 @@ func genC20Row(rng *simrt.Rand, i int) Row {
 		"s": []string{"ab", "Ab", "cd"}[rng.Intn(3)], "ts": int(fakeEpochMS) + i*400, "v": rng.Intn(9)}
 	if rng.Bool(0.8) {
 		row["o"] = map[string]any{"x": rng.Intn(4), "y": map[string]any{"z": "deep"}, "l": []any{1, "two", map[string]any{"k": 3}}}
+	}
+	if rng.Bool(0.5) {
+		row["l"] = []any{map[string]any{"k": rng.Intn(3), "n": map[string]any{"d": 1}}, map[string]any{"k": 9}}
 	}
 	if rng.Bool(0.2) {
 		delete(row, "a")
@@ -79,6 +85,9 @@ func (c20) Gen(rng *simrt.Rand, seed uint64, tier string) *Case {
 	for i := 0; i < nInst; i++ {
 		in := InstSpec{SQL: kind.SQL, Perf: &PerfSpec{ResultChan: 8, Workers: 1 + rng.Intn(2), PoolSize: 2, Strategy: "block", BlockTimeout: int64(time.Hour), DataChan: 1 + rng.Intn(6), WindowOut: 64},
 			Sinks: []SinkSpec{{Mode: "sync", Retain: true}, {Mode: "async", Retain: true}}}
+		if kind.Name == "schema_default" {
+			in.Schema = []SchemaFld{{Name: "id", Type: "string", Required: true}, {Name: "a", Type: "float", Default: 7.0}, {Name: "zz", Type: "string", Default: "dflt"}, {Name: "s", Type: "string"}}
+		}
 		if kind.Join {
 			in.Tables = []TableSpec{{Name: "meta", Rows: []Row{{"k": 1, "ver": 11}, {"k": 2, "ver": 12}, {"k": 3, "ver": 13}}}}
 		}
